@@ -250,10 +250,10 @@ pub fn compare(a: &Snap, b: &Snap) -> Result<&'static str, (String, String)> {
 	if a.burial_reorg || b.burial_reorg {
 		return Ok("reduced:reorg-at-burial-depth");
 	}
-	cmp!(rel_mon, "relevant-txids-monitor");
 	if a.know != b.know {
 		return Ok("reduced:extra-knowledge-from-losing-fork");
 	}
+	cmp!(rel_mon, "relevant-txids-monitor");
 	cmp!(rel_mgr, "relevant-txids-manager");
 	cmp!(channels, "channels");
 	cmp!(closed, "closed");
